@@ -8,6 +8,7 @@ import re
 import z3
 
 from . import smt, rx, lexprops
+from . import serprops  # noqa: F401  (installs `substring in text` for strings)
 from .dyn import Val, dyn, INTLIT, FLOATLIT, STR2INT, STR2F
 from .engine import Engine
 from .state import State
@@ -35,6 +36,16 @@ def install_models(eng):
         s = args[0]
         codec = args[1] if len(args) > 1 else "utf-8"
         errors = args[2] if len(args) > 2 else kw.get("errors", "strict")
+        limit = {"latin-1": 255, "latin1": 255, "iso-8859-1": 255, "ascii": 127}.get(str(codec).lower())
+        if errors == "strict" and limit is not None:
+            # strict encoding into a one-byte codec: every character must exist in it, else UnicodeEncodeError
+            fits = z3.InRe(eng.str_term(s), z3.Star(z3.Range(chr(0), chr(limit))))
+            for s1, ok in eng.branch(st, fits):
+                if ok:
+                    yield s1, Sym("bytes", (codec, errors, eng.str_term(s)))
+                else:
+                    yield eng.raise_(s1, "UnicodeEncodeError", "'%s' codec can't encode character" % codec)
+            return
         yield st, Sym("bytes", (codec, errors, eng.str_term(s)))
 
     def bi_str_rstrip(st, args, kw):
